@@ -1102,27 +1102,40 @@ class AsyncBackgroundBatcher(Generic[A_contra, R_co]):
 
         fut: 'aio.Future[R_co]'
 
+        # The future is shared by every caller with this key and by the
+        # batch processing it: shield it so that cancelling one caller
+        # cannot cancel it for the others.
         try:
             fut = self._retention_cache[key]
         except KeyError:
             pass
         else:
-            return await fut
+            return await aio.shield(fut)
 
         fut = self._retention_cache[key] = self._loop.create_future()
+        # Forget the request once it has completed, whether or not the
+        # caller that created it is still around to see the result
+        fut.add_done_callback(partial(self._forget, key))
         await self._queue.put((key, arg, fut))
 
-        try:
-            return await fut
-        finally:
-            if self.retention_timeout > 0:
-                self._loop.call_later(
-                    self.retention_timeout,
-                    self._retention_cache.pop,
-                    key,
-                )
-            else:
-                del self._retention_cache[key]
+        return await aio.shield(fut)
+
+    def _forget(self, key: str, fut: 'aio.Future[R_co]') -> None:
+        """
+        Remove the completed request for the given key from the
+        retention cache, after :attr:`retention_timeout` if it is set.
+        """
+        if not fut.cancelled():
+            fut.exception()  # Mark retrieved, the callers may be gone
+        if self.retention_timeout > 0:
+            self._loop.call_later(
+                self.retention_timeout,
+                self._retention_cache.pop,
+                key,
+                None,
+            )
+        else:
+            self._retention_cache.pop(key, None)
 
     def _daemon_task(
         self,
